@@ -39,6 +39,12 @@ APPROVED = {"C01", "C02", "C03", "C05", "C06", "C07", "C09", "C10", "C11", "C14"
 
 def load_fragments():
     import glob
+    for f in sorted(glob.glob(os.path.join(HERE, "manifest.d", "X*.json"))):
+        x = json.load(open(f))
+        ENGINES.append(dict(name=x.get("engine", os.path.basename(f)[:-5]), path=x.get("path", "spec/extra/"),
+                            serves_properties=[],
+                            kind_free_text="spec growth beyond the listed properties (./check %s): %s"
+                            % (os.path.basename(f)[:-5], x.get("technique", ""))[:400]))
     for f in sorted(glob.glob(os.path.join(HERE, "manifest.d", "C*.json"))):
         pid = os.path.basename(f)[:-5]
         if pid not in APPROVED:
